@@ -350,7 +350,7 @@ func c13run(sm, useTLS bool, first, lives string) string {
 				cur.Write([]byte("<r xmlns='urn:xmpp:sm:3'/>"))
 				go func(c net.Conn) { time.Sleep(400 * time.Millisecond); c.Close() }(cur)
 			}
-			if sm && refuseMs > 0 {
+			if refuseMs > 0 {
 				// the application goes on sending while the connection is down: the send fails (the stanza stays held
 				// for the resumed session) - and must leave the session usable for everything that follows. Only in lives
 				// whose reconnection is refused for a while: there the send certainly meets the dead connection (a send
